@@ -69,6 +69,20 @@ fn case(w: &mut impl Write, class: &str, text: &str) {
     // only syntax-error-free inputs are in scope (a parser panic is C01's business)
     match catch(|| oq3_syntax::SourceFile::parse(text).errors().len()) {
         Ok(0) => {}
+        Ok(_) => {
+            // C11: with any syntax diagnostic the analysis is not run: empty program, no semantic diagnostics
+            let o = run_sema(text);
+            let flat = text.replace('\n', "\\n").replace('\t', " ");
+            let verdict = if let Some(p) = &o.panic {
+                format!("FAIL C11: the pipeline panicked on an input with syntax diagnostics: {} ;; {flat}", &p[..p.len().min(100)])
+            } else if !o.any_syntax || !o.stmts.is_empty() || !o.errors.is_empty() {
+                format!("FAIL C11: the input has syntax diagnostics but the analysis ran (any_syntax_errors={}, {} statements, {} semantic diagnostics) ;; {flat}", o.any_syntax, o.stmts.len(), o.errors.len())
+            } else {
+                "SKIP input has syntax diagnostics".to_string()
+            };
+            writeln!(w, "nopanic\t{class}\tSYNTAX\t{verdict}").unwrap();
+            return;
+        }
         _ => {
             writeln!(w, "nopanic\t{class}\tSYNTAX\tSKIP input has syntax diagnostics").unwrap();
             return;
@@ -90,7 +104,7 @@ fn case(w: &mut impl Write, class: &str, text: &str) {
         return;
     }
     if o.any_syntax {
-        writeln!(w, "nopanic\t{class}\tSYNTAX\tSKIP input has syntax diagnostics").unwrap();
+        writeln!(w, "nopanic\t{class}\tSYNTAX\tFAIL C11: the parse has no diagnostic but the analysis reports syntax errors and did not run ;; {flat}").unwrap();
         return;
     }
     if o.scope_depth != 1 {
